@@ -207,6 +207,7 @@ var initAlphabet = []string{
 	"Ns", "Nc", "Nq", "Se", // success / challenge outside the SASL namespace, an IQ, a stream error
 	"T", "W", "Cm", "E", "Z", // text, whitespace, comment, EOF, </stream:stream>
 	"Sp", "Cp", // <success/> / <challenge/> carrying the next payload of the table (lengths 0-8 x validity)
+	"Au", "Rs", // elements only an initiator sends, sent by the receiver: <auth mechanism='PLAIN'/> with credentials, <response/>
 }
 
 // payloadTable: character data of lengths 0 to 8, valid base64, invalid
@@ -276,6 +277,12 @@ type initScenario struct {
 	// <mechanisms/>; Stray is the text it carries (a mechanism name).
 	MechLayout string `json:"mech_layout,omitempty"`
 	Stray      string `json:"stray,omitempty"`
+	// ServerCtor: the initiating session's feature is the value xmpp.SASLServer
+	// returns (a server that uses one feature list for the streams it receives
+	// and the ones it initiates), with a permission callback that accepts
+	// everything.  The role follows the direction of the stream: the library
+	// still is the initiator, with no identity and an empty password.
+	ServerCtor bool `json:"server_ctor,omitempty"`
 
 	// filled in by the run
 	Log      []entry `json:"delivered,omitempty"`
@@ -619,6 +626,12 @@ func (a *initAdv) realise(kind string) (wire string, e entry, eof bool) {
 	case "A":
 		e.Carrier = "abort"
 		wire = sasl1("abort", "")
+	case "Au":
+		e.Carrier = "foreign"
+		wire = "<auth xmlns='" + nsSASL + "' mechanism='PLAIN'>" + saslpeer.B64([]byte("\x00"+user+"\x00pw1")) + "</auth>"
+	case "Rs":
+		e.Carrier = "foreign"
+		wire = sasl1("response", saslpeer.B64([]byte("\x00"+user+"\x00pw1")))
 	case "Ns":
 		e.Carrier = "foreign"
 		wire = "<success xmlns='jabber:client'/>"
@@ -698,6 +711,12 @@ func genInit(r *rand.Rand) *initScenario {
 	}
 	if r.Intn(10) == 0 {
 		sc.Identity = "admin"
+	}
+	if r.Intn(12) == 0 {
+		sc.ServerCtor, sc.Identity, sc.Password, sc.ServerPass = true, "", "", ""
+		if r.Intn(8) == 0 {
+			sc.ServerPass = "other"
+		}
 	}
 	if r.Intn(3) == 0 {
 		sc.Chunk = 1 + r.Intn(40)
@@ -997,7 +1016,15 @@ func runInitiator(c *core.Case, sc *initScenario) {
 		mechs = append(mechs, saslpeer.Mechanisms[n])
 	}
 	res := &negResult{}
-	feat := wrap(xmpp.SASL(sc.Identity, sc.Password, mechs...), res, func() int { return len(adv.delivered()) })
+	base := xmpp.SASL(sc.Identity, sc.Password, mechs...)
+	if sc.ServerCtor {
+		c.Count("init_cases_feature_from_SASLServer", 1)
+		base = xmpp.SASLServer(func(*sasl.Negotiator) bool {
+			c.Count("init_cases_feature_from_SASLServer_permission_callback_ran", 1)
+			return true
+		}, mechs...)
+	}
+	feat := wrap(base, res, func() int { return len(adv.delivered()) })
 	origin := jid.MustParse(user + "@" + domain)
 	location := jid.MustParse(domain)
 
@@ -1989,6 +2016,23 @@ func run(c *core.Case) {
 		fixedCases[j](c)
 		return
 	}
+	if c.Tier != "thorough" {
+		// quick: every initiator script of length <= 2, and the same scripts
+		// against the feature value SASLServer returns
+		per := seqCount(len(initAlphabet), 2)
+		if c.Index < 2*len(enumMechs)*per {
+			i := c.Index % (len(enumMechs) * per)
+			m := enumMechs[i/per]
+			sc := &initScenario{Role: "initiator", ClientMechs: []string{m}, Advertised: []string{m}, Password: "pw1", ServerPass: "pw1", Iter: 8,
+				Script: seqAt(initAlphabet, i%per, 2)}
+			if c.Index >= len(enumMechs)*per {
+				sc.ServerCtor, sc.Password, sc.ServerPass = true, "", ""
+			}
+			c.Count("init_enumerated", 1)
+			runInitiator(c, sc)
+			return
+		}
+	}
 	if c.Tier == "thorough" {
 		in, rn := enumSizes()
 		switch {
@@ -2030,7 +2074,7 @@ func Prop() *core.Prop {
 		"init_channel_binding_matched", "recv_accept_PLAIN", "recv_perm_true", "recv_perm_false",
 		"init_cancel_cases_no_deadline_transport", "init_cancel_cases_deadline_transport", "init_cancel_fired",
 		"init_cancel_fired_multi_step_mechanism",
-		"init_fixed_payload_table_cases", "init_fixed_mechanisms_layout_cases",
+		"init_fixed_payload_table_cases", "init_fixed_mechanisms_layout_cases", "init_enumerated", "init_cases_feature_from_SASLServer",
 		"recv_cases_without_permission_callback_saslserver", "recv_cases_without_permission_callback_sasl",
 		"init_fixed_failure_then_more", "recv_accept_" + testMechName, "recv_exchanges_of_16_or_more_elements",
 		"init_features_sasl_extra_after", "init_features_sasl_extra_before", "init_features_sasl_extra_both",
@@ -2046,7 +2090,7 @@ func Prop() *core.Prop {
 	return &core.Prop{
 		ID:    "C03",
 		Level: core.Exploration,
-		Rule:  "even cases: the library initiates (state Secure, SASL feature wrapped so that the mask returned by Negotiate is seen) against a server adversary that at each step sends the legitimate next message (computed with mellium.im/sasl's NewServer; own RFC 5802 server for the -PLUS variants) in its canonical carrier, in the other carrier, or one of 21 deviations (premature/duplicate/garbage/undecodable <success/>, empty/garbage/undecodable/replayed <challenge/>, <failure/>, <abort/>, foreign-namespace elements, stream error, text, whitespace, comment, EOF, stream end); one case in eight runs over a real TLS pair so that the channel-binding variants complete. Odd cases: the library receives (SASLServer with a logging permission callback whose verdict policy is match/always/never/flip) from a client adversary using sasl.NewClient: legitimate <auth/>, wrong password, unoffered/unknown/missing/lower-case mechanism, empty/=/undecodable/malformed payloads, <response/> before <auth/>, <abort/>, server-only elements, foreign elements, text, EOF. Thorough additionally enumerates every initiator script of length <= 3 for PLAIN, SCRAM-SHA-1, SCRAM-SHA-256 and every receiver script of length <= 2 for three server configurations and two verdict policies. Oracle: Authn (Negotiate mask with nil error, or Session.State()) only if the log of what the peer had delivered when Negotiate returned is accepted by the acceptor; the mechanism in <auth/> is in advertised ∩ configured; <success/> is written only for an accepting exchange; an unoffered mechanism is only refused. distinct = (role, mechanism family, delivered action path, verdict policy, Authn, accepting).",
+		Rule:  "even cases: the library initiates (state Secure, SASL feature wrapped so that the mask returned by Negotiate is seen) against a server adversary that at each step sends the legitimate next message (computed with mellium.im/sasl's NewServer; own RFC 5802 server for the -PLUS variants) in its canonical carrier, in the other carrier, or one of 21 deviations (premature/duplicate/garbage/undecodable <success/>, empty/garbage/undecodable/replayed <challenge/>, <failure/>, <abort/>, foreign-namespace elements, stream error, text, whitespace, comment, EOF, stream end); one case in eight runs over a real TLS pair so that the channel-binding variants complete. Odd cases: the library receives (SASLServer with a logging permission callback whose verdict policy is match/always/never/flip) from a client adversary using sasl.NewClient: legitimate <auth/>, wrong password, unoffered/unknown/missing/lower-case mechanism, empty/=/undecodable/malformed payloads, <response/> before <auth/>, <abort/>, server-only elements, foreign elements, text, EOF. Quick additionally enumerates every initiator script of length <= 2 over the 33 actions for PLAIN, SCRAM-SHA-1 and SCRAM-SHA-256, once with the feature xmpp.SASL returns and once with the feature xmpp.SASLServer returns on the initiated session (the role follows the direction of the stream; the actions include the initiator-only elements <auth/> and <response/> sent by the receiver). Thorough additionally enumerates every initiator script of length <= 3 for PLAIN, SCRAM-SHA-1, SCRAM-SHA-256 and every receiver script of length <= 2 for three server configurations and two verdict policies. Oracle: Authn (Negotiate mask with nil error, or Session.State()) only if the log of what the peer had delivered when Negotiate returned is accepted by the acceptor; the mechanism in <auth/> is in advertised ∩ configured; <success/> is written only for an accepting exchange; an unoffered mechanism is only refused. distinct = (role, mechanism family, delivered action path, verdict policy, Authn, accepting).",
 		Assumptions: []string{
 			"mellium.im/sasl computes correct SCRAM/PLAIN messages (the peers use it to know the legitimate next message)",
 			"a legitimate mechanism message carried by <success/> instead of <challenge/> (or the reverse) is not by itself a deviation; what is demanded is that all legitimate messages were delivered in order and that the last SASL element delivered before the decision was <success/>",
@@ -2060,7 +2104,7 @@ func Prop() *core.Prop {
 				in, rn := enumSizes()
 				return in + rn + 5000000
 			}
-			return 4000
+			return 4000 + 2*len(enumMechs)*seqCount(len(initAlphabet), 2)
 		},
 		Run:     run,
 		Require: req,
